@@ -16,7 +16,9 @@ from ..meshlib import PyMesh, canon, dump_leaves, dump_mesh, enc
 GUARD_PER_SLAB = 1
 GUARD_PER_SLAB = int(os.environ.get('C18_GUARD_PER_SLAB', GUARD_PER_SLAB))   # override for experiments only
 
-PROP_MODS = ['Stbem.Props.C18']
+from ..meshops_tie import PROP_MOD_C18 as MESHOPS_PROP_MOD, TRUSTED as MESHOPS_TRUSTED  # noqa: E402
+
+PROP_MODS = ['Stbem.Props.C18', MESHOPS_PROP_MOD]
 RULE = ('(a) curves: the real shipped curve objects (UnitSquare, LShape, UnitInterval: binary64 values are exact on the '
         'dyadic parameter lattice; PiSquare structurally: directions / base points exactly, parameters divided by pi) '
         'and random axis-parallel integer / dyadic polygons built by the real PiecewisePolygon constructor are compared '
@@ -37,6 +39,7 @@ TRUSTED = [
     'not modelled: binary64 rounding in line() (np.linalg.norm, division) -- the bit-exact end-point assertions of the '
     'constructor are preconditions; the finite-difference arc-length sampling of PiecewiseParametrization.__init__ '
     '(it can only reject); the circle is treated over the reals with Mathlib cos/sin, not executed',
+    MESHOPS_TRUSTED,
 ]
 ASSUMPTIONS = ['polygon coordinates and running arc lengths are exactly representable (integers / dyadic numbers); '
                'np.select returns the first matching choice',
@@ -445,7 +448,7 @@ CONFIGS = [  # (curve, stand-in break points?, binary64 coordinates exact under 
 
 
 def correspond_meshes(res, tier, rng):
-    batch = ParamBatch()
+    batch = ParamBatch(generated=True)   # every request also answered by the constructor REGENERATED from src/mesh.py
     n_hist = 0
     maxops = 6 if tier == 'quick' else 30
     for name, standin, exact_floats in CONFIGS:
@@ -486,11 +489,20 @@ def correspond_meshes(res, tier, rng):
                         res.sample(dict(history={k: (v if k != 'ops' else v[:6]) for k, v in batch.histories[-1].items()}))
     dis = batch.run()
     res.notes['mesh_model_lines'] = len(batch.lines)
+    res.notes['generated_model_lines'] = batch.n_generated
     res.notes['guard_per_slab'] = GUARD_PER_SLAB
     if dis is not None:
-        res.broken_obligation('correspondence C18: initParam(perSlab=%d) model and MeshParametrized differ' % GUARD_PER_SLAB,
-                              repr(dis)[:6000])
+        res.broken_obligation('correspondence C18: initParam(perSlab=%d) model%s and MeshParametrized differ' %
+                              (GUARD_PER_SLAB, ' REGENERATED from src/mesh.py (gmesh)'
+                               if dis.get('kind') == 'disagreement-generated' else ''), repr(dis)[:6000])
         res.notes['disagreement'] = dis
+
+
+def translate(res):
+    """Regenerates lean/Stbem/Gen/MeshOps.lean (MeshParametrized.__init__ and the refinement drivers the histories run
+    through) from src/mesh.py; a construct outside the translated fragment is a broken obligation."""
+    from ..meshops_tie import translate_meshops
+    translate_meshops(res)
 
 
 def correspond(res, tier):
